@@ -42,6 +42,8 @@ PATS = {
         {"class": "immediate", "imd": "double"}, {"class": "immediate", "imd": "*"},
         {"class": "identifier"},
         {"class": "condition", "ccode": "eq"}, {"class": "condition", "ccode": "*"},
+        {"class": "condition", "ccode": "hs"}, {"class": "condition", "ccode": "cs"},
+        {"class": "condition", "ccode": "lo"},
         {"class": "memory", "base": "*", "offset": "*", "index": "*", "scale": "*",
          "pre_indexed": "*", "post_indexed": "*"},
         {"class": "memory", "base": "x", "offset": "*", "index": "*", "scale": "*",
@@ -71,7 +73,7 @@ TEXTS = {
             "$0", ".L1", "(%rax)", "8(%rax)", "(%rax,%rbx)", "(%rax,%rbx,8)", "8(%rax,%rbx,8)",
             "8(,%rbx,8)", "16", "-8(%rax,%rbx,1)", "sym(%rax)", "sym(%rax,%rbx,8)"],
     "aarch64": ["x3", "w3", "d3", "q3", "s3", "b3", "h3", "v3.2d", "v3.4s", "v3.d[1]", "z3.d",
-                "z3.s", "p3", "p3/m", "#5", "#0", "#0x10", "#1.5", "#1.5e+0f", "label1", "eq", "ne",
+                "z3.s", "p3", "p3/m", "#5", "#0", "#0x10", "#1.5", "#1.5e+0f", "label1", "eq", "ne", "hs", "lo", "cs", "cc",
                 "[x1]", "[x1, #8]", "[x1, x2]", "[x1, x2, lsl #3]", "[x1, #8]!", "[x1], #8",
                 "[sp, #16]", "[x1, sym]"],
 }
@@ -132,6 +134,20 @@ def _parse(isa, text):
     return _PC[key]
 
 
+A64_CC_TEXTS = ("eq", "ne", "hs", "lo", "cs", "cc")
+
+
+def _kinds(isa, texts, operands):
+    """operand kinds; a condition code is taken as *written* (hs and cs are two spellings an
+    entry may declare separately), everything else from the parsed operand"""
+    ks = [RM.kind_of(isa, o) for o in operands]
+    if isa == "aarch64":
+        for k, t in zip(ks, texts):
+            if t in A64_CC_TEXTS and k.get("k") == "cond":
+                k["cc"] = t.upper()
+    return ks
+
+
 def _lookup_row(item):
     """arity 1 and 2 matrix rows through MachineModel.get_instruction"""
     isa, a = item
@@ -142,7 +158,7 @@ def _lookup_row(item):
         ta = T[a]
         f = _parse(isa, "mm %s" % ta)
         if f is not None and len(f.operands) == 1:
-            kinds = [RM.kind_of(isa, o) for o in f.operands]
+            kinds = _kinds(isa, [ta], f.operands)
             for i, p in enumerate(P):
                 exp = RM.match_operands(isa, [p], kinds)
                 if exp is None:
@@ -159,7 +175,7 @@ def _lookup_row(item):
             f = _parse(isa, "bb %s, %s" % (ta, tb))
             if f is None or len(f.operands) != 2:
                 continue
-            kinds = [RM.kind_of(isa, o) for o in f.operands]
+            kinds = _kinds(isa, [ta, tb], f.operands)
             for i, j in itertools.product(range(len(P)), repeat=2):
                 exp = RM.match_operands(isa, [P[i], P[j]], kinds)
                 if exp is None:
